@@ -136,7 +136,10 @@ func runC18(c *Ctx) {
 	c.Rule("O18.3", "no cached config: defaultConfigContainer.Get obtains the config from new() -> newValue.Call on every call; the zero-config function made for constructors without a default creates its value inside the function; nothing stores a produced config in a field or package variable")
 	c.Rule("O18.4", "error routing: in the per-product factory a config error is returned as (zero, err) when the requested factory type has two results and panics only when it has one; convertFactoryOutParams panics only with a non-nil error the requested type cannot carry; NewPlugin returns the constructor's second result as the error")
 	c.Rule("O18.5", "fillConf / lookup errors stop creation: in Registry.New and NewFactory the errors of get() and of the config container are returned before the constructor is invoked")
+	c.Rule("O18.6", "the config hooks hand the decoder and validator to the registry: on every path on which parseConf returns a nil error its fillConf result is the closure that calls config.DecodeAndValidate(settings, conf) - also for a section that holds nothing but the type key (the registered defaults are validated there) - and Hook / FactoryHook pass that result to plugin.New / plugin.NewFactory")
+	c.Rule("O18.7", "decoding a plugin section leaves the user's settings as they were: neither parseConf nor the closure it returns updates or deletes from a map that comes from its data parameter (a factory decodes the same settings again for every product, nested sections included)")
 	c18Registrations(c)
+	c18Hooks(c)
 	c18Constructors(c)
 	c18Container(c)
 	c18Registry(c)
@@ -689,4 +692,177 @@ func c18Registry(c *Ctx) {
 		}
 		c.Check(ok, "O18.5", fk(nf)+":lazy-config-uses-the-callers-fillConf", nf.Pos(), "the config getter handed to the constructor calls defaultConfig.Get(fillConf) with the caller's fillConf")
 	}
+}
+
+
+// c18Hooks decides O18.6 and O18.7 on core/plugin/pluginconfig.
+func c18Hooks(c *Ctx) {
+	P := c.P
+	sp := P.SSAPkg("core/plugin/pluginconfig")
+	if sp == nil {
+		c.Anchor("O18.6", "package core/plugin/pluginconfig")
+		return
+	}
+	sDecode := Spec{"./core/config", "", "DecodeAndValidate"}
+	// the parser = the function of the package both hooks call and whose results feed plugin.New / NewFactory
+	nHooks := 0
+	parsers := map[*ssa.Function]bool{}
+	for _, g := range PkgFuncs(sp) {
+		if !IsProdFile(P.File(g.Pos())) {
+			continue
+		}
+		EachInstr(g, func(in ssa.Instruction) {
+			cl, ok := in.(*ssa.Call)
+			if !ok || !MatchCC(&cl.Call, Spec{"./core/plugin", "", "New"}, Spec{"./core/plugin", "", "NewFactory"}) {
+				return
+			}
+			nHooks++
+			fill := cl.Call.Args[len(cl.Call.Args)-1]
+			var src *ssa.Call
+			isParsed := func(v ssa.Value) bool {
+				c2, _ := CallOfValue(v)
+				if c2 != nil && c2.Call.StaticCallee() != nil && c2.Call.StaticCallee().Pkg == sp {
+					src = c2
+					return true
+				}
+				return false
+			}
+			// plugin.New takes it as a variadic argument: look into the slice made for the call
+			okSrc := DerivesOnly(fill, false, isParsed) || SliceAny(fill, isParsed)
+			c.Check(okSrc && src != nil, "O18.6", fk(g)+":passes-the-parsed-fillConf", cl.Pos(), "the fillConf handed to the registry is the one parseConf returned")
+			if src != nil {
+				parsers[src.Call.StaticCallee()] = true
+			}
+		})
+	}
+	c.Floor("O18.6", "hooks creating plugins / factories through the registry", nHooks, 2)
+	for parse := range parsers {
+		key := fk(parse)
+		res := parse.Signature.Results()
+		fillIdx, errIdx := -1, -1
+		for i := 0; i < res.Len(); i++ {
+			if _, isSig := res.At(i).Type().Underlying().(*types.Signature); isSig {
+				fillIdx = i
+			}
+			if types.Identical(res.At(i).Type(), types.Universe.Lookup("error").Type()) {
+				errIdx = i
+			}
+		}
+		if fillIdx < 0 || errIdx < 0 {
+			c.Unknown("O18.6", key+":results", parse.Pos(), "cannot identify the fillConf and error results")
+			continue
+		}
+		paths, complete := EnumPaths(parse, 4096)
+		if !complete {
+			c.Unknown("O18.6", key+":paths", parse.Pos(), "too many paths to enumerate")
+			continue
+		}
+		nOK := 0
+		bad := ""
+		var closures []*ssa.Function
+		for _, p := range paths {
+			last := p.Blocks[len(p.Blocks)-1]
+			ret, isRet := last.Instrs[len(last.Instrs)-1].(*ssa.Return)
+			if !isRet || len(ret.Results) != res.Len() {
+				continue
+			}
+			ev := p.Resolve(ret.Results[errIdx])
+			if !IsNilConst(ev) {
+				// an error path unless the value is known nil on this path
+				_, bools := p.Facts()
+				cmps, _ := p.Facts()
+				isNil := false
+				for _, f := range cmps {
+					if f.Op == token.EQL && (f.X == ev && IsNilConst(f.Y) || f.Y == ev && IsNilConst(f.X)) {
+						isNil = true
+					}
+				}
+				_ = bools
+				if !isNil {
+					continue
+				}
+			}
+			nOK++
+			fv := p.Resolve(ret.Results[fillIdx])
+			mc, isMC := Strip(fv).(*ssa.MakeClosure)
+			if !isMC {
+				bad = "a success path returns " + fv.String() + " as fillConf (at " + P.Pos(ret.Pos()) + ")"
+				continue
+			}
+			f := mc.Fn.(*ssa.Function)
+			if len(Calls(f, sDecode)) == 0 {
+				bad = "the returned closure does not call config.DecodeAndValidate"
+				continue
+			}
+			closures = append(closures, f)
+		}
+		c.Check(bad == "" && nOK > 0, "O18.6", key+":success-returns-the-decoding-closure", parse.Pos(),
+			fmt.Sprintf("%d success path(s) of %d; %s", nOK, len(paths), bad))
+		// the closure decodes the settings into the config it is given and returns the error
+		seenF := map[*ssa.Function]bool{}
+		for _, f := range closures {
+			if seenF[f] {
+				continue
+			}
+			seenF[f] = true
+			for _, in := range Calls(f, sDecode) {
+				cl := in.(*ssa.Call)
+				okArgs := len(cl.Call.Args) == 2 && len(f.Params) == 1 && DerivesOnly(cl.Call.Args[1], false, func(v ssa.Value) bool { return v == ssa.Value(f.Params[0]) })
+				c.Check(okArgs, "O18.6", fk(f)+":decodes-into-the-given-config", cl.Pos(), "DecodeAndValidate(settings, conf) must be given the closure's conf parameter")
+				checkErrPropagated(c, "O18.6", fk(f)+":decode-error-returned", cl)
+			}
+		}
+		// O18.7: no write to a map that comes from the data parameter
+		nW := 0
+		fromData := func(m ssa.Value) bool {
+			return SliceAny(m, func(v ssa.Value) bool {
+				if pr, ok := v.(*ssa.Parameter); ok && pr.Parent() == parse {
+					return true
+				}
+				// the result of a helper that may return its argument (toStringKeyMap returns data itself when it already has string keys)
+				if c2, _ := CallOfValue(v); c2 != nil && c2.Call.StaticCallee() != nil && c2.Call.StaticCallee().Pkg == sp && c2.Parent() == parse {
+					return returnsItsArgument(c2.Call.StaticCallee())
+				}
+				return false
+			})
+		}
+		for _, f := range append([]*ssa.Function{parse}, parse.AnonFuncs...) {
+			EachInstr(f, func(in ssa.Instruction) {
+				var m ssa.Value
+				if mu, ok := in.(*ssa.MapUpdate); ok {
+					m = mu.Map
+				}
+				if IsBuiltinCall(in, "delete") {
+					m = CC(in).Args[0]
+				}
+				if m == nil {
+					return
+				}
+				nW++
+				c.Check(!fromData(m), "O18.7", fk(f)+":settings-not-modified", in.Pos(), "a map that may be the caller's settings is modified: the next decoding of the same settings (the next product of a factory) sees the change")
+			})
+		}
+		c.Note("O18.7: %d map writes in %s and its closures", nW, key)
+	}
+	c.Floor("O18.6", "parsers of plugin sections", len(parsers), 1)
+}
+
+// returnsItsArgument: some return of fn yields (a type assertion / conversion of) one of its parameters.
+func returnsItsArgument(fn *ssa.Function) bool {
+	found := false
+	EachInstr(fn, func(in ssa.Instruction) {
+		ret, ok := in.(*ssa.Return)
+		if !ok {
+			return
+		}
+		for _, r := range ret.Results {
+			if SliceAny(r, func(v ssa.Value) bool {
+				pr, ok := v.(*ssa.Parameter)
+				return ok && pr.Parent() == fn
+			}) {
+				found = true
+			}
+		}
+	})
+	return found
 }
